@@ -536,7 +536,7 @@ func (b *assignmentBuilder) sliceToSlice(lhs, rhs bmodel.Node) (a gmodel.Assignm
 	}
 
 	if types.AssignableTo(rhsElem, lhsElem) {
-		if util.IsBasicType(rhsElem) {
+		if util.IsBasicType(rhsElem) && types.Identical(rhsElem, lhsElem) {
 			a = gmodel.SliceAssignment{
 				LHS: lhs.AssignExpr(),
 				RHS: rhs.AssignExpr(),
